@@ -6,20 +6,30 @@ set -u
 id=$1; demo=$2; pkg=$3; run=$4
 wt=/tmp/seed/$id
 export GOFLAGS=-mod=mod GOPROXY=off GOSUMDB=off GOTOOLCHAIN=local
+demoflags=${SEED_DEMO_GOFLAGS:-$GOFLAGS}
 cd $wt || exit 2
 git checkout -q -- . 2>/dev/null; find . -name '*_verif.go' -delete
 git apply out/patch.diff || { echo "patch does not apply"; exit 2; }
 build=fail; go build ./... && build=ok
 suite=$(go test -vet=off -count=1 -timeout 25m ./... 2>&1 | tail -15)
 stable_fail=$(echo "$suite" | grep -E "^(--- FAIL|FAIL)" | grep -v -E "TestInsertionHappyPath|TestInsertionWrongInput|TestWrongMethod" | head -5)
+if [[ $demo == *.sh ]]; then
+  # shell demonstration: exit status 0 = property observed to hold
+  bash out/$demo > /tmp/seed/$id.with.log 2>&1; with_rc=$?
+  git apply -R out/patch.diff
+  bash out/$demo > /tmp/seed/$id.without.log 2>&1; w=$?
+  without_ok=0; [ $w -eq 0 ] && without_ok=1
+  git apply out/patch.diff
+else
 cp out/$demo $pkg/zz_seed_demo_test.go
-with=$(go test -vet=off -count=1 -timeout 20m -run "$run" ./$pkg/ 2>&1 | tail -8)
+with=$(GOFLAGS="$demoflags" go test -vet=off -count=1 -timeout 20m -run "$run" ./$pkg/ 2>&1 | tail -8)
 with_rc=$(echo "$with" | grep -c -E "^(FAIL|--- FAIL)")
 git apply -R out/patch.diff
-without=$(go test -vet=off -count=1 -timeout 20m -run "$run" ./$pkg/ 2>&1 | tail -5)
+without=$(GOFLAGS="$demoflags" go test -vet=off -count=1 -timeout 20m -run "$run" ./$pkg/ 2>&1 | tail -5)
 without_ok=$(echo "$without" | grep -c -E "^ok")
 rm -f $pkg/zz_seed_demo_test.go
 git apply out/patch.diff
+fi
 mkdir -p /verif/seeded/$id
 cp out/patch.diff /verif/seeded/$id/patch.diff
 cp out/$demo /verif/seeded/$id/$(basename $demo)
